@@ -145,7 +145,15 @@ theorem handleFwd_chunkAck (x : St) (c : TSN) (es : List (BitVec 16 × BitVec 16
     · exact .of_frames rfl rfl rfl rfl
     · split
       · exact staleFwd_chunkAck x
-      · exact (ackStep_chunkAck _ _).trans_frames (by simp) (by simp) (by simp) (by simp)
+      · have h1 := ensureStreams_timer (es.map (·.1)) x
+        have h2 := ensureStreams_ackState (es.map (·.1)) x
+        have h3 := ensureStreams_immTrig (es.map (·.1)) x
+        have h4 := ensureStreams_delTrig (es.map (·.1)) x
+        generalize ensureStreams x (es.map (·.1)) = e at h1 h2 h3 h4 ⊢
+        dsimp only
+        split
+        · exact .of_frames h1 h2 h3 h4
+        · exact (ackStep_chunkAck _ _).trans_frames (by simp [h1]) (by simp [h2]) (by simp [h3]) (by simp [h4])
 
 theorem handleIFwd_chunkAck (x : St) (c : TSN) (es : List (BitVec 16 × Bool × BitVec 32)) : ChunkAck x (handleIFwd x c es) := by
   unfold handleIFwd
@@ -153,7 +161,15 @@ theorem handleIFwd_chunkAck (x : St) (c : TSN) (es : List (BitVec 16 × Bool × 
   · exact .of_frames rfl rfl rfl rfl
   · split
     · exact staleFwd_chunkAck x
-    · exact (ackStep_chunkAck _ _).trans_frames (by simp) (by simp) (by simp) (by simp)
+    · have h1 := ensureStreams_timer (es.map (·.1)) x
+      have h2 := ensureStreams_ackState (es.map (·.1)) x
+      have h3 := ensureStreams_immTrig (es.map (·.1)) x
+      have h4 := ensureStreams_delTrig (es.map (·.1)) x
+      generalize ensureStreams x (es.map (·.1)) = e at h1 h2 h3 h4 ⊢
+      dsimp only
+      split
+      · exact .of_frames h1 h2 h3 h4
+      · exact (ackStep_chunkAck _ _).trans_frames (by simp [h1]) (by simp [h2]) (by simp [h3]) (by simp [h4])
 
 theorem handleChunk_chunkAck (x : St) (ch : InChunk) : ChunkAck x (handleChunk x ch) := by
   cases ch with
